@@ -107,7 +107,22 @@ func (e *Explorer) Explore() error {
 			y := e.runDevs(devs, false)
 			e.DetChecks++
 			if y.TraceHash != x.TraceHash || len(y.Choices) != len(x.Choices) {
-				err = fmt.Errorf("nondeterminism: two runs of %v differ (trace hash %x vs %x, %d vs %d points)", devs, x.TraceHash, y.TraceHash, len(x.Choices), len(y.Choices))
+				a, b := e.runDevs(devs, true), e.runDevs(devs, true)
+				diff := "(traced re-runs agree)"
+				for i := 0; i < len(a.Trace) || i < len(b.Trace); i++ {
+					var la, lb string
+					if i < len(a.Trace) {
+						la = a.Trace[i]
+					}
+					if i < len(b.Trace) {
+						lb = b.Trace[i]
+					}
+					if la != lb {
+						diff = fmt.Sprintf("first difference at step %d: %q vs %q", i, la, lb)
+						break
+					}
+				}
+				err = fmt.Errorf("nondeterminism: two runs of %v differ (trace hash %x vs %x, %d vs %d points) %s", devs, x.TraceHash, y.TraceHash, len(x.Choices), len(y.Choices), diff)
 				return
 			}
 		}
